@@ -1,7 +1,6 @@
-//! C02: not implemented yet.
+//! C02: decided by the crash engine (crash.rs).
 use crate::Args;
 
-pub fn run(_a: &Args) -> i32 {
-    println!("INCONCLUSIVE property=C02 reason=check not implemented yet");
-    2
+pub fn run(a: &Args) -> i32 {
+    super::crash::run(a, "C02")
 }
